@@ -15,13 +15,13 @@ CLAIMED = {
             'save path of every archive scope; one common entry-point protocol (context, archive, serialize, Finalize) in all LoadObject/SaveObject '
             'overloads; XML node shapes emitted by the save side are accepted by the load side (childless element = empty value; recorded known '
             'findings); MsgPack writer-emits subset-of reader-accepts over the decision tables of both codecs; JSON rendering result consumed and '
-            'stream source encoding named; a value the stream reader delivers in chunks is assembled in order (inductive step of the chunk loop).',
+            'stream source encoding named; a value the stream reader delivers in chunks is assembled in order (inductive step of the chunk loop); the configured CSV separator reaches every function that decides with it.',
             'cast-kind audit on the typed AST + call protocol rule + writer/reader decision-table inclusion (abstract interpretation)', '§5 C01'),
     'C02': ('other',
             'Structural necessary conditions of "no input can crash or exhaust the loader": no escape to std::terminate on load paths, no '
             'input-driven recursion, no unclamped header-declared pre-sizing, every read of the MsgPack input buffer covered by a bounds guard '
             'on every abstract path for all 256 first bytes (both readers and helpers), array end guards agree with IsEnd(); CSV unescape reads stay inside the cell in every loop iteration (inductive facts by Houdini); '
-            'the stream window analysis incl. disjoint memcpy regions. Hangs and arithmetic UB in general are not decided.',
+            'the stream window analysis incl. disjoint memcpy regions; the encoded text stream reader keeps its window inside the buffer and makes progress at end of file (a truncated last code unit cannot spin a caller). Hangs and arithmetic UB in general are not decided.',
             'may-throw closure + call-graph SCCs + taint-to-sink flow + guard domination by abstract interpretation over the first-byte domain', '§5 C02'),
     'C03': ('other',
             'Structural necessary conditions of order-independent field loading: failure results of positioning/refill calls are consumed, '
@@ -39,14 +39,14 @@ CLAIMED = {
     'C05': ('other',
             'Path-complete accounting on the clang CFG: in the MsgPack array/binary read scopes every normal path consumes exactly as many '
             'elements as it counts; DOM array scopes advance once per request; mismatch protocol tables for all 256 first bytes in both '
-            'reader copies; no second consuming attempt after a failed binary scope; the object read scope accounts every consumed member on every path, also the skipped-by-policy ones. Necessary conditions for "a skip consumes exactly '
+            'reader copies; no second consuming attempt after a failed binary scope; the object read scope accounts every consumed member on every path, also the skipped-by-policy ones; header-declared lengths are kept in integer objects wide enough for their length field. Necessary conditions for "a skip consumes exactly '
             'that value"; neighbour values themselves are not decided.',
             'CFG path enumeration with event balance (consume vs count) + decision tables over the first-byte domain', '§5 C05'),
     'C06': ('other',
             'Abstract interpretation of both MsgPack writers over value/length intervals partitioned at every compared constant, against an '
             'oracle written from the MessagePack specification: format code, length-field width, minimal encoded size, big-endian payload '
             'of the argument itself, oversize => exception, timestamp headers and field layout; twin equality of the two writers; the '
-            'seconds/nanoseconds split of time values decided over linear forms (no overflow, 0 <= ns < 10^9, sec*10^9+ns exact); every Open*Scope of the write scopes emits the header of its own family. Exhaustive over the partition cells; payload bit patterns of floats are not decided.',
+            'seconds/nanoseconds split of time values decided over linear forms (no overflow, 0 <= ns < 10^9, sec*10^9+ns exact); every Open*Scope of the write scopes emits the header of its own family; the field counter's chaining operators return *this by reference. Exhaustive over the partition cells; payload bit patterns of floats are not decided.',
             'decision tables by abstract interpretation over an interval partition, compared with a hand-written spec oracle', '§5 C06'),
     'C07': ('other',
             'Abstract interpretation of both MsgPack readers over the exact domain of all 256 first bytes against an oracle written from the '
@@ -56,29 +56,29 @@ CLAIMED = {
     'C08': ('other',
             'Conformance of the emitted text is delegated to rapidjson/pugixml; decided are the adapter obligations around them: Accept() result '
             'consumed, ParseStream source encoding, UtfType-to-backend maps, encoding/BOM/format options reaching the renderers, XML input '
-            'encoding handling, the decision table of the JSON value loader over the kinds of JSON value (every number spelling loads into a floating target). Equality of the recovered data model under re-rendering is not decided.',
+            'encoding handling, the decision table of the JSON value loader over the kinds of JSON value (every number spelling loads into a floating target), equal pugixml parse options for string and stream input. Equality of the recovered data model under re-rendering is not decided.',
             'result-consumption and argument-flow rules over the typed AST, switch tables', '§5 C08'),
     'C09': ('other',
             'Symbolic linear evaluation of every view built from a CSV cell descriptor (exactly [Offset, Offset+Size) in all four ReadValue '
             'bodies), abstract interpretation of the field-quoting decision over all byte values x separators, presence of the row-width check '
             'on every row kind (execution over row states), separator validation before construction, and the transition table of the field scanner of both readers '
-            'against RFC 4180 (one generic iteration per character class x quotes seen x last CR x end of input).',
+            'against RFC 4180 (one generic iteration per character class x quotes seen x last CR x end of input); separator forwarding; the stream scanner reads decoded text only.',
             'dimension typing by linear evaluation + decision table of the quoting predicate + must-pass-through checks', '§5 C09'),
     'C10': ('other',
             'Sibling cross-check of the duplicated memory/stream implementations: equal decision tables of the two MsgPack readers for all '
             'methods x 256 first bytes; writer tables; CSV twins compared cell by cell (row states, column selection, scanner transitions), cell reads do not write the row, '
-            'chunked strings are assembled in order, stream-positioning discipline (whole error state cleared before a backward seek). Decides agreement of the copies, not behaviour at every chunk alignment.',
+            'chunked strings are assembled in order, stream-positioning discipline (whole error state cleared before a backward seek), length widths of both reader copies, separator forwarding, no look-ahead of the CSV stream scanner into text not decoded yet. Decides agreement of the copies, not behaviour at every chunk alignment.',
             'twin comparison of decision tables / statement skeletons of sibling implementations', '§5 C10'),
     'C11': ('other',
             'Abstract interpretation of the cross-width transcoders over the scalar-value / code-unit classes of the Unicode standard: for '
             'every well-formed class the emitted code-unit intervals and the consumed length equal the standard (all 256 UTF-8 lead bytes x '
-            'second-byte classes; encoder classes; surrogate pairs), plus width dispatch and endianness adapters of the traits classes. '
+            'second-byte classes; encoder classes; surrogate pairs), plus width dispatch and endianness adapters of the traits classes, and the stream reader never rejects text for a sequence that merely straddles its chunk boundary. '
             'Exactness is decided at interval precision per class, not per scalar value.',
             'decision tables by abstract interpretation over interval classes, compared with a hand-written Unicode oracle', '§5 C11'),
     'C12': ('other',
             'Same interpreter over the ill-formed classes (Table 3-7 complements, lone/misordered surrogates, UTF-32 surrogates and values '
             'above U+10FFFF): nothing decoded is emitted, the error is counted once and marked or reported at its start; every input read is '
-            'bounds-guarded and every iteration advances; the configured policy and error mark are forwarded by every layer that holds them (no fallback to a default argument). First sequence of the input only.',
+            'bounds-guarded and every iteration advances; the configured policy and error mark are forwarded by every layer that holds them (no fallback to a default argument); callers that report failure by throwing do so for every result code but Success. First sequence of the input only.',
             'decision tables by abstract interpretation over interval classes + iterator typestate (guard domination)', '§5 C12'),
     'C14': ('other',
             'Calendar correctness and the exact print/parse round trip are NOT decided (integer arithmetic over 2^64 instants). Decided is one '
@@ -91,7 +91,7 @@ CLAIMED = {
             'Decides the "never wraps" clause where it is visible in the code: interval abstract interpretation with adaptive cell splitting '
             'over every instantiation of SafeDurationCast (no signed overflow, value returned only unwrapped and equal to the exact product/quotient, '
             'otherwise out_of_range), linear-constraint analysis of both SafeAddDuration overloads, from_chars error-code mapping, the calendar '
-            'acceptance table of the datetime parser over (year mod 400, month, day), the negation of parsed magnitudes and the scaling of the fraction digits (digit count x boundary values). That an accepted text '
+            'acceptance table of the datetime parser over (year mod 400, month, day), the negation of parsed magnitudes, the scaling of the fraction digits (digit count x boundary values) and the year range of the tm target. That an accepted text '
             'yields the denoted instant is calendar arithmetic and is not decided.',
             'abstract interpretation: interval domain with adaptive partitioning, linear constraints (Fourier-Motzkin), finite quotient tables', '§5 C15'),
     'C16': ('other',
@@ -102,13 +102,13 @@ CLAIMED = {
             'abstract interpretation over finite character-class / error-code domains, linear constraints, call-shape rules', '§5 C16'),
     'C17': ('other',
             'Validator plumbing decided structurally per instantiation (fold order over all validators, message forwarding, grouping/append, '
-            'grouping/append and cap decided by executing AddValidationError over a map model, final throw iff non-empty map, entry-point protocol) and the built-in validators decided by abstract interpretation '
+            'grouping/append and cap decided by executing AddValidationError over a map model, final throw iff non-empty map, entry-point protocol, wrapper loaders report 'not loaded' whenever they leave the wrapper empty) and the built-in validators decided by abstract interpretation '
             'over the finite orderings of value/size vs bounds x loaded. Path strings and the Email/Phone grammars are not decided.',
             'AST rules per instantiation + decision tables over finite orderings', '§5 C17'),
     'C18': ('other',
             'Every container/wrapper loader carries its stale-state eliminator on every normal CFG path of every load instantiation '
             '(final resize(counter) with one increment per element load; clear() before insertion and on every normal exit; clear iff Clean; reset only on the '
-            'not-loaded path; assign; size-mismatch throw), the sequence loaders executed over a container model (target = loaded items in order for every '
+            'not-loaded path; assign; size-mismatch throw; bitset loop over all positions), the sequence loaders executed over a container model (target = loaded items in order for every '
             'prior size x item count x estimate) and the map load modes have no forbidden effect. Element values are not decided.',
             'CFG path enumeration (event order / counting) + effect rules per switch case', '§5 C18'),
     'C13': ('other',
@@ -117,7 +117,7 @@ CLAIMED = {
             'and longer) with every probe read inside the view; every switch over UtfType maps like-named traits; the writer emits the BOM '
             'iff configured, for the configured encoding, with size()*sizeof(unit) bytes; the stream reader\'s window arithmetic over symbolic '
             'pointers (invariant, refill/squeeze bounds, no overlapping memcpy) and end-of-file progress (Success at eof leaves an empty '
-            'window, so no caller loop can spin); the istream overload of DetectEncoding repositions the stream relative to its entry position. Equality of decoded and written text is not decided.',
+            'window, so no caller loop can spin); the istream overload of DetectEncoding repositions the stream relative to its entry position; the CSV stream scanner reads decoded text only. Equality of decoded and written text is not decided.',
             'abstract interpretation over byte-class / linear-constraint domains (Fourier-Motzkin entailment) + AST structural rules', '§5 C13'),
     'C19': ('proof',
             'Exhaustive audit of shared state: every static-storage object of the library is immutable or a tabled registry written only '
@@ -126,7 +126,7 @@ CLAIMED = {
             'shared-state audit: who-may-write over the type-checked AST, use classification by cast/call/assignment kinds', '§5 C19'),
     'C20': ('other',
             'May-throw closure over the resolved call graph decides that no library/I-O raised exception can escape a destructor or '
-            'noexcept function, that all throws are std::exception-derived, that raw owners are leak-safe by construction, and that the status of every JSON rendering call is consumed. Necessary '
+            'noexcept function, that all throws are std::exception-derived, that raw owners are leak-safe by construction, that the status of every JSON rendering call is consumed, and that a truncated text stream ends in a result instead of an endless loop. Necessary '
             'structural clauses of the property; allocation-failure leak freedom is not decided.',
             'interprocedural may-throw analysis to nothrow sinks + ownership typestate on constructors', '§5 C20'),
 }
